@@ -110,8 +110,21 @@ def generate(job):
         spec.update(m0=m0, mi=gen_struct(rs, m0, rs.choice([1, 2, 2, 3]), 4))
         spec["N"] = min(spec["N"], 40)
     else:
-        spec["card"] = rs.choice(["one_R_BC", "two_one_nodes", "plain"])
+        spec["card"] = rs.choice(["one_R_BC", "two_one_nodes", "plain", "plain", "plain4"])
         spec["N"] = min(spec["N"], 40)
+        if spec["card"] in ("plain", "plain4") and rs.chance(0.75):
+            # the nodes= keyword (importance-sampling workflow): asks for given final-state particles to be
+            # generated last; a re-ordering of the generator, never of the particle labels
+            fin = ["B", "C", "D"] + (["E"] if spec["card"] == "plain4" else [])
+            nodes = []
+            for _ in range(rs.choice([1, 1, 2])):
+                k = rs.randint(1, len(fin) - 1)
+                pool = list(fin)
+                node = []
+                for _ in range(k):
+                    node.append(pool.pop(rs.randrange(len(pool))))
+                nodes.append(node)
+            spec["nodes"] = nodes
     if spec.get("j_later") == "1":
         spec["N"] = min(spec["N"], 7)
     return spec
@@ -316,7 +329,13 @@ def run_generator(spec, log):
 
                 out = gen_mc(spec["m0"], list(spec["mi"]), N)
             else:
-                out = run_config(spec, N)
+                def after_cal_max():
+                    log.count("probe.cal_max_weight_used")
+                    del rec.batches[:]
+                    pending["u"] = []
+                    pending["b"] = None
+
+                out = run_config(spec, N, after_cal_max)
             draws = src.calls
     finally:
         ph.PhaseSpaceGenerator.get_weight = orig_get_weight
@@ -341,6 +360,17 @@ CARDS = {
             "R_CD": {"J": 1, "P": -1, "mass": 1.5, "width": 0.1},
         },
     },
+    "plain4": {
+        "decay": {"A": [["R_BCD", "E"], ["R_CDE", "B"]], "R_BCD": [["R_BC", "D"]], "R_CDE": [["R_DE", "C"]], "R_BC": ["B", "C"], "R_DE": ["D", "E"]},
+        "particle": {
+            "$top": {"A": {"J": 0, "P": -1, "mass": 5.0}},
+            "$finals": {"B": {"J": 0, "P": -1, "mass": 0.5}, "C": {"J": 0, "P": -1, "mass": 0.14}, "D": {"J": 0, "P": -1, "mass": 0.3}, "E": {"J": 0, "P": -1, "mass": 0.9}},
+            "R_BCD": {"J": 1, "P": 1, "mass": 3.0, "width": 0.2},
+            "R_CDE": {"J": 1, "P": 1, "mass": 3.2, "width": 0.2},
+            "R_BC": {"J": 1, "P": -1, "mass": 1.2, "width": 0.1},
+            "R_DE": {"J": 1, "P": -1, "mass": 1.6, "width": 0.1},
+        },
+    },
     "one_R_BC": {
         "decay": {"A": [["R_BC", "D"]], "R_BC": ["B", "C"]},
         "particle": {
@@ -361,11 +391,20 @@ CARDS = {
 }
 
 
-def run_config(spec, N):
+def run_config(spec, N, after_cal_max=None):
     from tf_pwa.config_loader import ConfigLoader
 
     config = ConfigLoader(copy.deepcopy(CARDS[spec["card"]]))
-    p = config.generate_phsp_p(N)
+    if spec.get("nodes") is not None or spec.get("variant") == "cal_max":
+        # what generate_phsp_p(N, cal_max=...) does, with the nodes= keyword of the generator factory
+        gen = config.get_phsp_p_generator(nodes=[list(n) for n in spec["nodes"]]) if spec.get("nodes") is not None else config.get_phsp_p_generator()
+        if spec.get("variant") == "cal_max":
+            gen.cal_max_weight()
+            if after_cal_max:
+                after_cal_max()  # weights evaluated by the maximiser itself are not proposals
+        p = gen.generate(N)
+    else:
+        p = config.generate_phsp_p(N)
     return {str(k): v for k, v in p.items()}
 
 
